@@ -42,13 +42,14 @@ func runFetch(fs FetchScenario) (FetchObs, error) {
 		m := fs.Mini
 		m.CancelAt = -1
 		m.Listeners = 0
-		runMiniOn(kb, m, f)
+		runMiniOn(kb, m, f, fs.Mini.Counters[nCounters])
 	}
 	f := &MiniFact{}
 	f.set(fs.FetchFacts)
 	obs.Before = f.get()
 	dc := ast.NewDataContext()
 	dc.Add("F", f)
+	dc.Add("T", fs.FetchFacts[nCounters])
 	eng := &engine.GruleEngine{MaxCycle: 100, ReturnErrOnFailedRuleEvaluation: fs.Mini.RetErr}
 	func() {
 		defer func() {
@@ -164,7 +165,7 @@ func runC11(seed uint64, tier string, out string) error {
 			continue
 		}
 		fs := FetchScenario{Mini: m, ExecFirst: p.chance(1, 3)}
-		fs.FetchFacts = make([]int64, nCounters)
+		fs.FetchFacts = make([]int64, nCounters+1)
 		for j := range fs.FetchFacts {
 			fs.FetchFacts[j] = int64(p.intn(4))
 		}
